@@ -117,7 +117,7 @@ def c05(tier, seed):
 
 def c11(tier, seed):
     ops = BASE + CONV + ["Borrow", "BorCopy", "Enter", "Exit", "PtrEq"]
-    return [lay("C11", tier, "layout_matrix_" + tier[0]),
+    return [lay("C11", tier, "layout_matrix_" + tier[0]), stage(LY.widths_stage, "C11", tier, "widths_" + tier[0]),
             sized("C11", tier, "sized_raw_" + tier[0], ops, 3 if tier == "quick" else 4, 2, 1),
             slices("C11", tier, "slices_raw_" + tier[0], 3 if tier == "quick" else 4, 2, 2)] + swaps("C11", tier, seed, hows=("init", "thin"))
 
@@ -348,10 +348,12 @@ def c12(tier, seed):
     if tier == "quick":
         return [sized("C12", tier, "sized_union_q", ops, 4, 2, 1, hows=("new", "newB")), lay("C12", tier, "layout_matrix_q"),
                 stage(CM.compare_stage, "C12", tier, "union_variants_q", only=["different variants"]),
-                stage(CT.ctor_stage, "C12", tier, "union_release_q", ["union_drop"], True), inj("C12", tier)]
+                stage(CT.ctor_stage, "C12", tier, "union_release_q", ["union_drop"], True), inj("C12", tier),
+                stage(LY.widths_stage, "C12", tier, "widths_q")]
     return [sized("C12", tier, "sized_union_t", ops, 5, 2, 1, hows=("new", "newB")), lay("C12", tier, "layout_matrix_t"),
             stage(CM.compare_stage, "C12", tier, "union_variants_t", only=["different variants"]),
-            stage(CT.ctor_stage, "C12", tier, "union_release_t", ["union_drop"], True), inj("C12", tier)]
+            stage(CT.ctor_stage, "C12", tier, "union_release_t", ["union_drop"], True), inj("C12", tier),
+                stage(LY.widths_stage, "C12", tier, "widths_t")]
 
 
 GRAPH_ASSUME = [
@@ -376,6 +378,8 @@ MM_ASSUME = [
 def any_replay(p, v):
     if "h" in v:
         return S.replay_graph_violation(p, v)
+    if v.get("key", "").startswith("width:"):
+        return LY.replay_widths(p, v)
     if v.get("key", "").startswith(("matrix:", "crash-in-matrix")):
         return LY.replay_layout(p, v)
     if v.get("key", "").startswith(("ctor:", "allocfail:", "crash-in-ctor")):
